@@ -40,11 +40,14 @@ instead of a list of used sites - fault path, interaction of two options, lower-
 helper, "optimisation", ordering across a suspension point: 9 / 0 / 4 / 7.  Two of the
 four "other" catches were right for the wrong reason (C04 R9 and C08 R3 did not recognise a
 direct loop.stop() as stopping the loop and so alarmed on h06, which breaks C06 only): those
-rules were corrected to stay silent and C06 R10 written for what h06 really breaks.  Every
-miss led to a rule (often one shared between properties whose statements overlap); all
-101 are now caught by their target.  The first-pass rate did not improve between rounds: independently written
+rules were corrected to stay silent and C06 R10 written for what h06 really breaks.  A
+seventh round of 20 (ids iNN) prescribed the KIND OF MISTAKE instead - boundary / off-by-one,
+wrong neighbouring variable, falsy-value handling, clean-up missing on one way out, a wrong
+detail in a library call: 9 / 0 / 4 / 7 again (i01 and i12 are the same edit, made
+independently for two properties).  Every miss led to a rule (often one shared between
+properties whose statements overlap); all 121 are now caught by their target.  The first-pass rate did not improve between rounds: independently written
 breakages keep finding clauses no rule covered yet - the honest reading is that a new
-change has roughly an even chance of hitting an existing rule, and that the 101 stored
+change has roughly an even chance of hitting an existing rule, and that the 121 stored
 ones are regression tests, not a coverage measure.
 
 | id | property | change | needs, to manifest | caught by |
